@@ -295,7 +295,10 @@ namespace detail {
 
         void skip_column()
         {
-            ++name_index_;
+            if (level2_ == 0) // inside an array the column does not change
+            {
+                ++name_index_;
+            }
         }
         
         int level() const
@@ -409,8 +412,11 @@ namespace detail {
             if (level2_ > 0)
             {
                 cached_events_[name_index_].emplace_back(staj_events::end_array, semantic_tag::none, alloc_);
-                ++name_index_;
                 --level2_;
+                if (level2_ == 0) // an array nested in an array belongs to the same column
+                {
+                    ++name_index_;
+                }
             }
             else
             {
